@@ -67,9 +67,11 @@ def main(ctx, replay=None):
         K = c_(I, J)
         sig = {"key": f"{I}{J}"}
         sp = [fld(x, d) for x in row["spectrum"]]
-        for _ in range(nstrain):
+        for sn in range(nstrain + 1):
             ntv = 4
             e = draw_fractions(rng, ntv) * rng.uniform(0.5, 3.0)       # positive triples (not normalised)
+            if sn == nstrain:
+                e = rng.integers(1, 12, (ntv, 3))                     # ... also given as whole numbers (an integer-typed array)
             s = S(e, K)
             case = {"key": [I, J], "strain": e}
             # -- (1) own-frame requests
